@@ -105,6 +105,8 @@ def cfilt(f):
     return '(NAll %s)' % clist([cfilt(g) for g in f['all']])
   if 'not' in f:
     return '(NNot %s)' % cfilt(f['not'])
+  if 'seq' in f:
+    return '(NSeq %s)' % clist([cfilt(g) for g in f['seq']])
   if 'bool' in f:
     return '(NBool %s)' % cbool(f['bool'])
   if 'ellipsis' in f:
